@@ -148,6 +148,35 @@ def chunksBody (kv : KV) : String :=
     | _ => "n/a"
   | _, _ => "n/a"
 
+/-- `--body` view of the `regroup` engine for the by-reference forms -/
+def regroupBody (kv : KV) : String :=
+  match kv.nat? "n", kv.nat? "m" with
+  | some n, some m =>
+    let kind := kv.getD "kind" "u32"
+    let esz := eszOf kind
+    let idOf (i : Nat) : Nat := if kind = "unit" then 0 else if kind = "u8" then i % 256 else i
+    let flat : List Nat := (List.range (n * m)).map (· + 1)
+    let sh (l : List Nat) : String := showNats (l.map idOf)
+    let shRows (r : List (List Nat)) : String := "".intercalate (r.map fun x => s!"[{sh x}]")
+    let one (wr : Bool) (o : GA.MemBody.VOut) : Option GA.MemBody.View := match o with
+      | .views [v] => if v.wr == wr then some v else none
+      | _ => none
+    match kv.getD "op" "" with
+    | "flatten_ref" => match one false (GA.MemBody.runViews false GA.Gen.SeqBody.flattenRef ⟨n, m, 0⟩) with
+      | some v => s!"res=ok off={v.off * esz} len={v.len} out=[{sh (flat.take v.len)}]"
+      | none => "res=ub"
+    | "flatten_mut" => match one true (GA.MemBody.runViews true GA.Gen.SeqBody.flattenMut ⟨n, m, 0⟩) with
+      | some v => s!"res=ok off={v.off * esz} len={v.len} out=[{sh (flat.take v.len)}]"
+      | none => "res=ub"
+    | "unflatten_ref" => match one false (GA.MemBody.runViews false GA.Gen.SeqBody.unflattenRef ⟨n, n * m, 0⟩) with
+      | some v => s!"res=ok off={v.off * esz} len={v.len} rows={shRows (chunk n (v.len / (if n = 0 then 1 else n)) flat)}"
+      | none => "res=ub"
+    | "unflatten_mut" => match one true (GA.MemBody.runViews true GA.Gen.SeqBody.unflattenMut ⟨n, n * m, 0⟩) with
+      | some v => s!"res=ok off={v.off * esz} len={v.len} rows={shRows (chunk n (v.len / (if n = 0 then 1 else n)) flat)}"
+      | none => "res=ub"
+    | _ => "n/a"
+  | _, _ => "n/a"
+
 /-- `--body` view of the `views` engine for the checked slice → array-reference conversions -/
 def viewsBody (kv : KV) : String :=
   match kv.nat? "n" with
